@@ -149,8 +149,8 @@ def gen_cond(g, cls, R, Dy, Dx, ctor=None):
         d["b"] = g.mat(R, Dy) if g.randint(0, 3) else None
     # every fourth conditional was built with ANOTHER covariance and brought to this one by update_Sigma(...)
     # (a multi-step history: all cached quantities must be those of the new covariance)
-    if cls != "nn" and g.randint(0, 3) == 0:
-        d["Sig0"] = [(g.diag_spd(Dy) if diag else g.spd(Dy)) for _ in range(R)]
+    if g.randint(0, 2) == 0:
+        d["Sig0"] = [(g.diag_spd(Dy) if diag else g.spd(Dy)) for _ in range(1 if cls == "nn" else R)]
     return d
 
 
@@ -171,13 +171,74 @@ def cond_Sig(d, r):
     return d["Sig"][0] if d["cls"] == "nn" else d["Sig"][r]
 
 
+# ---- object histories ------------------------------------------------------------------------------------------------
+# An object with a HISTORY was built in another state, went through the scenario's own calls once (dry run: every lazily
+# filled or memoised quantity is now populated), was then mutated in place by the library's mutators (update_Sigma of a
+# conditional, update(idx, d) of a density) and goes through the scenario a second time, which is the run that is
+# observed.  with_history(run) drives this: mode "before" builds the before-state objects and remembers them, then the
+# pending mutations are applied, and mode "reuse" hands the very same Python objects (and the same control array u) to
+# the scenario again.  The model side is the pure function of the final parameters (Cond.update_Sigma, Measure.pdf_update).
+_MODE = [None]
+_MEMO = {}
+_PENDING = []
+
+
+def _fp(x):
+    import json
+    return json.dumps(C.J(x), sort_keys=True)
+
+
+def has_history(d):
+    if isinstance(d, dict):
+        if d.get("Sig0") is not None or d.get("upd") is not None:
+            return True
+        return any(has_history(v) for v in d.values())
+    if isinstance(d, list):
+        return any(has_history(v) for v in d)
+    return False
+
+
+def with_history(run):
+    def wrapped(d):
+        dU = C.U(d)
+        if not has_history(dU):
+            return run(d)
+        _MEMO.clear(); del _PENDING[:]
+        _MODE[0] = "before"
+        try:
+            run(d)                      # dry run on the before-state objects (result discarded)
+            for fn in _PENDING:         # in-place mutations
+                fn()
+            _MODE[0] = "reuse"
+            return run(d)
+        finally:
+            _MODE[0] = None; _MEMO.clear(); del _PENDING[:]
+    return wrapped
+
+
 def impl_cond(d):
     """returns (object, kwargs for every method call) -- the NN class needs u= on every call"""
+    key = ("cond", _fp(d))
+    if _MODE[0] == "reuse" and key in _MEMO:
+        return _MEMO[key]
+    if _MODE[0] == "before" and key in _MEMO:
+        return _MEMO[key]
     if d.get("Sig0") is not None:
         d0 = dict(d); d0["Sig"] = d["Sig0"]; d0["Sig0"] = None
-        o, kw = impl_cond(d0)
-        o.update_Sigma(jarr(d["Sig"]))
+        o, kw = _build_cond(d0)
+        if _MODE[0] == "before":
+            _MEMO[key] = (o, kw)
+            _PENDING.append(lambda o=o, S=d["Sig"]: o.update_Sigma(jarr(S)))
+        else:
+            o.update_Sigma(jarr(d["Sig"]))
         return o, kw
+    o, kw = _build_cond(d)
+    if _MODE[0] == "before":
+        _MEMO[key] = (o, kw)
+    return o, kw
+
+
+def _build_cond(d):
     I = gtlib.impl()
     cm = I["conditional"]
     jnp = I["jnp"]
@@ -207,7 +268,7 @@ def impl_cond(d):
 
 
 def coq_cond(d):
-    if d.get("Sig0") is not None:
+    if d.get("Sig0") is not None and d["cls"] != "nn":
         d0 = dict(d); d0["Sig"] = d["Sig0"]; d0["Sig0"] = None
         return "(update_Sigma %s (lb3 %s))" % (coq_cond(d0), cb3(d["Sig"]))
     cls = d["cls"]
@@ -223,6 +284,9 @@ def coq_cond(d):
         return "(mk_cond %s %d %d %d (fun _ => mid) (fun _ => vzero) %s)" % (COQ_CLS[cls], R, Dy, Dx, args)
     if cls == "nn":
         base = "(mk_cond CFull 1 %d %d (fun _ => mzero) (fun _ => vzero) %s)" % (Dy, Dx, args)
+        if d.get("Sig0") is not None:      # update_Sigma acts on the control conditional itself (before the control is set)
+            base0 = "(mk_cond CFull 1 %d %d (fun _ => mzero) (fun _ => vzero) (Some (lb3 %s)) None None)" % (Dy, Dx, cb3(d["Sig0"]))
+            base = "(update_Sigma %s (lb3 %s))" % (base0, cb3(d["Sig"]))
         return "(nn_set_control %s %d (lb3 %s) (lb2 %s))" % (base, d["Ru"], cb3(d["M"]), cmat(d["b"]))
     b = "(fun _ => vzero)" if d["b"] is None else "(lb2 %s)" % cmat(d["b"])
     return "(mk_cond %s %d %d %d (lb3 %s) %s %s)" % (COQ_CLS[cls], R, Dy, Dx, cb3(d["M"]), b, args)
@@ -252,13 +316,54 @@ def obs_all(ob, o, xs, tag=""):
 
 
 # ------------------------------------------------------------------ pdf with constructor variants
-def gen_pdfv(g, R, D, diag=False, ctor=None):
+def gen_pdfv(g, R, D, diag=False, ctor=None, history=False):
     d = C.gen_pdf(g, R, D, diag=diag)
     d["ctor"] = ctor or g.choice(["Sigma", "Sigma", "Sigma+Lambda", "all"])
+    if history and g.randint(0, 3) == 0:
+        # built with OTHER components at some positions, which update(idx, new) then replaces in place
+        k = g.randint(1, R)
+        pos = list(range(R)); g.shuffle(pos); pos = pos[:k]
+        other = C.gen_pdf(g, R, D, diag=diag)
+        d["upd"] = dict(pos=pos, idx=[(r - R if g.randint(0, 1) else r) for r in pos],
+                        Sig=[other["Sig"][r] for r in pos], mu=[other["mu"][r] for r in pos])
     return d
 
 
+def _pdf_before(p):
+    """the description of the object before its in-place update"""
+    b = {k: v for k, v in p.items() if k != "upd"}
+    b["Sig"] = list(p["Sig"]); b["mu"] = list(p["mu"])
+    for j, r in enumerate(p["upd"]["pos"]):
+        b["Sig"][r] = p["upd"]["Sig"][j]; b["mu"][r] = p["upd"]["mu"][j]
+    return b
+
+
+def _pdf_new(p):
+    pos = p["upd"]["pos"]
+    return dict(R=len(pos), D=p["D"], Sig=[p["Sig"][r] for r in pos], mu=[p["mu"][r] for r in pos], diag=p.get("diag"), ctor="Sigma")
+
+
 def impl_pdfv(p):
+    key = ("pdf", _fp(p))
+    if _MODE[0] in ("reuse", "before") and key in _MEMO:
+        return _MEMO[key]
+    if p.get("upd") is not None:
+        jnp = gtlib.impl()["jnp"]
+        o = _build_pdfv(_pdf_before(p))
+        mut = lambda o=o: o.update(jnp.array(p["upd"]["idx"]), _build_pdfv(_pdf_new(p)))
+        if _MODE[0] == "before":
+            _MEMO[key] = o
+            _PENDING.append(mut)
+        else:
+            mut()
+        return o
+    o = _build_pdfv(p)
+    if _MODE[0] == "before":
+        _MEMO[key] = o
+    return o
+
+
+def _build_pdfv(p):
     I = gtlib.impl()
     jnp = I["jnp"]
     cls = I["pdf"].GaussianDiagPDF if p.get("diag") else I["pdf"].GaussianPDF
@@ -271,6 +376,8 @@ def impl_pdfv(p):
 
 
 def coq_pdfv(p):
+    if p.get("upd") is not None:
+        return "(pdf_update %s %s %s)" % (gtlib.cints(p["upd"]["idx"]), coq_pdfv(_pdf_before(p)), coq_pdfv(_pdf_new(p)))
     ctor = p.get("ctor", "Sigma")
     L = "None" if ctor == "Sigma" else "(Some (lb3 %s))" % cb3([finv(S) for S in p["Sig"]])
     h = "(Some (lh %s))" % cvec([fdet(S) for S in p["Sig"]]) if ctor == "all" else "None"
@@ -288,7 +395,7 @@ def gen_scn(g, scn, **kw):
     """One rational case of scenario scn; shapes are passed in kw."""
     R, D = kw.get("R", 1), kw.get("D", 2)
     if scn == "ctor":          # every constructor combination, full and diagonal
-        p = gen_pdfv(g, R, D, diag=kw.get("diag", False), ctor=kw.get("ctor"))
+        p = gen_pdfv(g, R, D, diag=kw.get("diag", False), ctor=kw.get("ctor"), history=True)
         return dict(scn=scn, p=p, xs=g.mat(3, D))
     if scn == "measure_int":   # integral / log_integral(_light) / normalize / get_density of a measure
         return dict(scn=scn, u=C.gen_measure(g, R, D, diag=kw.get("diag", False)), xs=g.mat(3, D),
@@ -298,14 +405,14 @@ def gen_scn(g, scn, **kw):
         if idx is None:
             k = g.randint(1, D)
             idx = list(range(D)); g.shuffle(idx); idx = idx[:k]
-        return dict(scn=scn, p=gen_pdfv(g, R, D, diag=kw.get("diag", False)), idx=idx, xs=g.mat(3, len(idx)))
+        return dict(scn=scn, p=gen_pdfv(g, R, D, diag=kw.get("diag", False), history=True), idx=idx, xs=g.mat(3, len(idx)))
     if scn == "linsum":
         ds = kw.get("ds") or g.randint(1, D)
         while True:
             W = [g.imat(ds, D) for _ in range(R)]
             if all(fdet(fmm(w, [list(c) for c in zip(*w)])) != 0 for w in W):
                 break
-        return dict(scn=scn, p=gen_pdfv(g, R, D), ds=ds, W=W, b=(g.mat(R, ds) if g.randint(0, 2) else None), xs=g.mat(3, ds))
+        return dict(scn=scn, p=gen_pdfv(g, R, D, history=True), ds=ds, W=W, b=(g.mat(R, ds) if g.randint(0, 2) else None), xs=g.mat(3, ds))
     if scn == "condition_on":
         idx = kw.get("idx")
         if idx is None:
@@ -316,7 +423,7 @@ def gen_scn(g, scn, **kw):
         dx = list(comp)
         if explicit:
             g.shuffle(dx)
-        return dict(scn=scn, p=gen_pdfv(g, R, D), dy=idx, dx=dx, explicit=explicit, xs=g.mat(3, D))
+        return dict(scn=scn, p=gen_pdfv(g, R, D, history=True), dy=idx, dx=dx, explicit=explicit, xs=g.mat(3, D))
     Dy, Dx = kw.get("Dy", 2), kw.get("Dx", 2)
     cls = kw.get("cls", "full")
     Rc, Rx = kw.get("Rc", 1), kw.get("Rx", 1)
@@ -331,13 +438,13 @@ def gen_scn(g, scn, **kw):
         c = gen_cond(g, cls, Rc, Dy, Dx)
         # p(x) is a full or (every third case, or when asked for) a diagonal density object
         pdiag = kw["pdiag"] if "pdiag" in kw else (g.randint(0, 2) == 0)
-        p = gen_pdfv(g, Rx, c["Dx"], diag=pdiag)
+        p = gen_pdfv(g, Rx, c["Dx"], diag=pdiag, history=True)
         return dict(scn=scn, c=c, p=p, xs=g.mat(3, c["Dx"]), ys=g.mat(3, c["Dy"]))
     if scn == "kl":
         R0, R1 = kw.get("R0", R), kw.get("R1", R)
-        p0 = gen_pdfv(g, R0, D)
+        p0 = gen_pdfv(g, R0, D, history=True)
         same = kw.get("same", False)
-        p1 = dict(p0) if same else gen_pdfv(g, R1, D)
+        p1 = dict(p0) if same else gen_pdfv(g, R1, D, history=True)
         return dict(scn=scn, p0=p0, p1=p1)
     raise ValueError(scn)
 
@@ -680,6 +787,7 @@ def hist(d):
             for kk in ("cls", "R", "Ru", "D", "Dy", "Dx", "ctor", "diag"):
                 if kk in d[k]:
                     h["%s.%s" % (k, kk)] = d[k][kk]
+            h["%s.history" % k] = "update_Sigma" if d[k].get("Sig0") is not None else ("update" if d[k].get("upd") is not None else "fresh")
     return h
 
 
@@ -703,7 +811,7 @@ def filtered(prop):
     def run(d):
         ob, fails = run_impl(d)
         return ob, [f for f in fails if prop in f["props"]]
-    return run
+    return with_history(run)
 
 
 def shapes_cond(g, tier, n_extra):
